@@ -973,10 +973,18 @@ def run_dec(t, pre, body, post):
     return ';'.join(out)
 
 
+_zero_toggle = [0]
+
+
 def mk_tree(s):
     if s[0] == 'L':
         return RootNode(bytes.fromhex(s[1]))
     if s[0] == 'Z':
+        # every second zero summary carries an EQUAL BUT DISTINCT bytes object as its root (as a node loaded from a
+        # store or produced by hashing would), the others the library's own zero-hash objects
+        _zero_toggle[0] ^= 1
+        if _zero_toggle[0]:
+            return RootNode(bytes(bytearray(zero_node(int(s[1])).merkle_root())))
         return zero_node(int(s[1]))
     if s[0] == 'P':
         return PairNode(mk_tree(s[1]), mk_tree(s[2]))
